@@ -262,9 +262,15 @@ def truncDown (bits : Nat) : Ext → Ext
   | .fin a => .fin (((a * (2 ^ bits : Nat)).floor : Int) / ((2 ^ bits : Nat) : Rat))
   | x => x
 
+/-- saturation: a finite value above `2^40` is replaced by `2^40` (still a lower bound).  Without it the
+iterates of a divergent non-linear grammar double their bit length at every step. -/
+def capDown : Ext → Ext
+  | .fin a => if a > ((2 ^ 40 : Nat) : Rat) then .fin ((2 ^ 40 : Nat) : Rat) else .fin a
+  | x => x
+
 def kleeneDown (G : Grammar Ext) (bits : Nat) : Nat → Val Ext
   | 0 => zeroVal G
-  | n+1 => (F realSR G (kleeneDown G bits n)).map (fun t => t.map (fun l => l.map (truncDown bits)))
+  | n+1 => (F realSR G (kleeneDown G bits n)).map (fun t => t.map (fun l => l.map (fun c => capDown (truncDown bits c))))
 
 /-- cellwise `a ≤ b` (absent = zero) -/
 def valLe (G : Grammar Ext) (a b : Val Ext) : Bool :=
@@ -288,7 +294,7 @@ def kleeneDual (G : Grammar (Ext × Ext)) (bits : Nat) : Nat → Val (Ext × Ext
   | 0 => zeroVal G
   | n+1 =>
     let y := F dualSR G (kleeneDual G bits n)
-    if bits == 0 then y else y.map (fun t => t.map (fun l => l.map (fun c => (truncDown bits c.1, truncDown bits c.2))))
+    if bits == 0 then y else y.map (fun t => t.map (fun l => l.map (fun c => (capDown (truncDown bits c.1), capDown (truncDown bits c.2)))))
 
 /-! ### checking a concrete derivation with assignments (C04: what `viterbi` returns) -/
 
